@@ -261,7 +261,8 @@ def run(tier, seed):
     # workers (the controlled seam still runs the tasks inline: only code that branches on n_jobs differs)
     mcs_bound = [B06[0], B06[8], B06[5], B06[10], EXTRA]
     wsubs = [list(t) for t in (subs if thorough else covering_triples()) if len(t) == 3]
-    wsubs += [list(p) for k in (3, 4, 5) for p in itertools.permutations(mcs_bound, k)][:: (1 if thorough else 7)]
+    wsubs += [list(p) for p in itertools.permutations(mcs_bound, 3)]
+    wsubs += [list(p) for k in (4, 5) for p in itertools.permutations(mcs_bound, k)][:: (1 if thorough else 7)]
     wjobs = [{"rxns": t, "n_jobs": nj} for t in wsubs for nj in (2, 3)]
     wjobs += [{"rxns": list(t), "ids": kind} for t in subs if len(t) == 2 for kind in ("reversed", "text")][:: (1 if thorough else 3)]
     rw = pmap("checks.c06:subbatch_case", wjobs, chunk=4, seed=seed, timeout=7200)
